@@ -125,7 +125,9 @@ WORDS = ["a", "Bc", "d e", "x", "yz", "&", "<", "a&b", "c<d", "-->", "e-->f", "&
          "1", "42", "f>g", "<3",
          # spaces that are not XML white space (kept as they are, wherever they stand), references spelled out in the text
          # (always next to a letter: whether a line of nothing but such spaces is a line of text is not decided here)
-         "n\u00a0b", "\u00a0z", "\u3000\u3000w", "v\u2003", "&#60;b&#62;", "&#x41;", "&nbsp;"]
+         "n\u00a0b", "\u00a0z", "\u3000\u3000w", "v\u2003", "&#60;b&#62;", "&#x41;", "&nbsp;",
+         # decomposed sequences and compatibility characters: the text is written code point for code point, not normalised
+         "e\u0323\u0302", "\u304b\u3099", "a\u0301b", "\u212b", "\ufa19", "\u0634\u0651\u064e"]
 WORDS_NL = ["\n", " \n ", "s\nt"]        # only under xml:space=default (collapsed by the ISD)
 
 
